@@ -4,6 +4,7 @@ import (
 	"bytes"
 	"context"
 	"fmt"
+	"os"
 	"path/filepath"
 	"runtime"
 	"runtime/pprof"
@@ -149,6 +150,39 @@ func c18W2(c *ev.Ctx) {
 	want := dumpText(path)
 	n := []int{2, 4, 8, 16}[r.Intn(4)]
 	got := make([]string, n)
+	// half of the cases: some readers also meet damaged files (torn copies of the shared file,
+	// cut at lengths spread over its metadata) whose Open or reads fail; error paths run next
+	// to healthy reads of other handles and must not disturb them
+	var torn []string
+	if whole, err := os.ReadFile(path); err == nil && len(whole) > 64 && r.Bool() {
+		lim := min(len(whole), 8192)
+		var cuts []int
+		for j := 0; j < 16; j++ {
+			cuts = append(cuts, 48+r.Intn(lim-48))
+		}
+		// and a cut at every byte of the first two object headers (message by message)
+		nh := 0
+		for _, e := range c17Extents(whole).ext {
+			if e.Kind == "OHDR" && nh < 2 && e.End-e.Start <= 600 {
+				nh++
+				for l := int(e.Start) + 1; l < int(e.End) && l < len(whole); l++ {
+					cuts = append(cuts, l)
+				}
+			}
+		}
+		for j, l := range cuts {
+			tp := filepath.Join(c.Dir, fmt.Sprintf("torn%d.h5", j))
+			if os.WriteFile(tp, whole[:l], 0o644) == nil {
+				torn = append(torn, tp)
+			}
+		}
+		c.Count("W2:cases_with_torn_copies_read_alongside", 1)
+	}
+	wantTorn := make([]string, len(torn))
+	for j, tp := range torn {
+		wantTorn[j] = dumpText(tp)
+	}
+	tornDiff := make([]string, n)
 	var wg sync.WaitGroup
 	start := make(chan struct{})
 	for i := 0; i < n; i++ {
@@ -157,6 +191,15 @@ func c18W2(c *ev.Ctx) {
 			defer wg.Done()
 			<-start
 			for k := 0; k < 6; k++ {
+				if len(torn) > 0 && i%2 == 1 {
+					per := (len(torn) + 5) / 6 // over the six rounds every reader meets every torn copy
+					for j := 0; j < per; j++ {
+						idx := (i*7 + k*per + j) % len(torn)
+						if t := dumpText(torn[idx]); t != wantTorn[idx] && tornDiff[i] == "" {
+							tornDiff[i] = fmt.Sprintf("%s: sequential %q, parallel %q", filepath.Base(torn[idx]), trunc40(wantTorn[idx]), trunc40(t))
+						}
+					}
+				}
 				got[i] = dumpText(path)
 			}
 		}(i)
@@ -166,6 +209,12 @@ func c18W2(c *ev.Ctx) {
 	for i := range got {
 		if got[i] != want {
 			c.Violation("parallel-differs:readers-of-one-file", map[string]any{"file": strings.TrimPrefix(path, ev.RepoDir()+"/"), "readers": n, "index": i, "sequential": trunc40(want), "parallel": trunc40(got[i])})
+			break
+		}
+	}
+	for i := range tornDiff {
+		if tornDiff[i] != "" {
+			c.Violation("parallel-differs:readers-of-torn-files", map[string]any{"file": strings.TrimPrefix(path, ev.RepoDir()+"/"), "readers": n, "detail": tornDiff[i]})
 			break
 		}
 	}
@@ -583,7 +632,7 @@ var C18 = &ev.Property{
 	ID:    "C18",
 	Level: "exploration",
 	Race:  true,
-	Rule: "all workloads run in a binary built with the race detector; every detector report is a violation keyed by the first library frames of its two stacks. W1: 2-32 goroutines, each writing its own file from its own history and reading it back (shared state reached: buffer pool, datatype registry), compared with the sequential run; W2: 2-16 readers with their own Open handle on one file (corpus or library-written), six complete dumps each, compared with the sequential dump; W3: one WritableBTreeV2 with lazy + incremental rebalancing (ticker 1 us - 1 ms, budgets 1 us - 10 ms, with and without progress callback), ONE foreground goroutine doing 2000 (thorough 6000) inserts, lazy deletes across the batch threshold, statistics and progress queries, stop and re-enable; every stop must return, afterwards no library goroutine may be left (bounded wait 4 s); W4: SmartRebalancer (re-evaluation every 100 us; in half of the cases with a detector whose sliding window is 2 or 10 ms, with idle phases that let events expire followed by reader-only calls) over a real B-tree, 2-8 goroutines calling RecordOperation/Evaluate/GetStats/GetMetrics plus MetricsCollector.RecordOperation/Snapshot whose history is checked for linearizability against a counter model (porcupine), Stop, restart, cancel through the context, goroutine census; W5: FileWriter created with each rebalancing configuration, an attribute history with runtime toggles, background mode left running or not, Close, goroutine census; W6 (every sixth case): 150 (thorough 600) short lives of a SmartRebalancer whose first re-evaluation switches background rebalancing on, over a tree adapter whose size query takes 0-1 ms, Stop called before, during or after that re-evaluation: when Stop has returned the adapter must have been told to stop background rebalancing. " +
+	Rule: "all workloads run in a binary built with the race detector; every detector report is a violation keyed by the first library frames of its two stacks. W1: 2-32 goroutines, each writing its own file from its own history and reading it back (shared state reached: buffer pool, datatype registry), compared with the sequential run; W2: 2-16 readers with their own Open handle on one file (corpus or library-written), six complete dumps each, compared with the sequential dump; in half of the cases every second reader also opens torn copies of the file (16 random cuts in its first 8 KiB and a cut at every byte of its first two object headers), whose failing Opens and reads run next to the healthy ones; W3: one WritableBTreeV2 with lazy + incremental rebalancing (ticker 1 us - 1 ms, budgets 1 us - 10 ms, with and without progress callback), ONE foreground goroutine doing 2000 (thorough 6000) inserts, lazy deletes across the batch threshold, statistics and progress queries, stop and re-enable; every stop must return, afterwards no library goroutine may be left (bounded wait 4 s); W4: SmartRebalancer (re-evaluation every 100 us; in half of the cases with a detector whose sliding window is 2 or 10 ms, with idle phases that let events expire followed by reader-only calls) over a real B-tree, 2-8 goroutines calling RecordOperation/Evaluate/GetStats/GetMetrics plus MetricsCollector.RecordOperation/Snapshot whose history is checked for linearizability against a counter model (porcupine), Stop, restart, cancel through the context, goroutine census; W5: FileWriter created with each rebalancing configuration, an attribute history with runtime toggles, background mode left running or not, Close, goroutine census; W6 (every sixth case): 150 (thorough 600) short lives of a SmartRebalancer whose first re-evaluation switches background rebalancing on, over a tree adapter whose size query takes 0-1 ms, Stop called before, during or after that re-evaluation: when Stop has returned the adapter must have been told to stop background rebalancing. " +
 		"non-trivial: every case; distinct = (workload, parameters).",
 	Assumptions: []string{"the race detector generalises over orderings of the accesses it observed (happens-before), not over paths that were not executed"},
 	Cases: func(tier string) int {
